@@ -17,10 +17,10 @@ static int64_t eval2(Node *node, char ***label)
 __CPROVER_requires(node != 0 && node->ty != 0)
 __CPROVER_assigns()
 __CPROVER_ensures(__CPROVER_return_value == verif_ival(node));
-static double eval_double(Node *node)
+static long double eval_double(Node *node)
 __CPROVER_requires(node != 0 && node->ty != 0)
 __CPROVER_assigns()
-__CPROVER_ensures(bits(__CPROVER_return_value) == bits(verif_dval(node)));
+__CPROVER_ensures(__CPROVER_return_value == (long double)verif_dval(node) && bits((double)__CPROVER_return_value) == bits(verif_dval(node)));   /* a float/double node yields exactly a value of its type */
 static Type TF, TD, TI_, TL, TUL;
 void harness(void) {
   TF = (Type){TY_FLOAT, 4, 4}; TD = (Type){TY_DOUBLE, 8, 8}; TI_ = (Type){TY_INT, 4, 4}; TL = (Type){TY_LONG, 8, 8}; TUL = (Type){TY_LONG, 8, 8, 1};   /* DFCC does not keep file-scope initialisers */
